@@ -30,6 +30,7 @@ def run(chk):
     chk.rule('C13-R2', 'kernels on the calc_power path: every store under prange is iteration-, thread- or cursor-private', 8)
     chk.rule('C13-R4', 'the in-place normalisation passes (normalize_field, _normalize) update every cell of the mesh', 2)
     chk.rule('C13-R5', 'get_raw_power is the Hermitian product: the cross branch with field2 = field equals the auto branch, and a common phase factor (a whole-cell translation of both fields) cancels', 2)
+    chk.rule('C13-R7', 'no thread-partitioned floating reduction feeds the spectrum: the field total is handed to normalize_field by its callers (never None)', 2)
     chk.rule('C13-R6', 'the second field goes through the same transform as the first: the two get_field_fft calls bind every parameter alike, up to (pos, w) <-> (pos2, w2); no two same-named arguments are crossed at a call on the path', 2)
     chk.assume('termination-insensitive: a raise/assert that depends on the particles is not counted as a dependence of the outputs')
     chk.assume('library calls (rfftn, numpy) are modelled as: result values and shape depend on the values and shapes of all arguments')
@@ -147,6 +148,69 @@ def run(chk):
                 chk.unknown('C13-R4', PS, q, f'loop at line {lp.lineno} covers the flattened field', detail, node=lp)
             else:
                 chk.check(verdict == 'PROVEN', 'C13-R4', PS, q, f'loop over {X} covers the flattened field', detail, detail, node=lp)
+    # ---- R7: no thread-partitioned floating reduction feeds the result.  An array reduction (X.sum(), np.sum, mean) inside a
+    # parallel=True kernel is split over the threads by numba: with a float32 mesh the total depends on the number of threads (and stops
+    # absorbing cells near 2**24 of them).  normalize_field has one, as the fallback for a missing total; every caller on the path must
+    # therefore hand it a total that cannot be None.
+    fnq = src.func(PS, 'normalize_field')
+    par = any('parallel' in unparse(d_) for d_ in fnq.decorator_list)
+    reds = [n for n in walk_no_nested(fnq) if isinstance(n, ast.Call) and ((isinstance(n.func, ast.Attribute) and n.func.attr in ('sum', 'mean', 'prod', 'std', 'var')
+                                                                         and not unparse(n.func.value).startswith(('np', 'numpy', 'math')))
+                                                                        or dotted(n.func) in ('np.sum', 'np.mean', 'np.nansum', 'sum'))]
+    guards = set()
+    unguarded = []
+    for r_ in reds:
+        g_, cur = None, r_
+        while cur is not None and cur is not fnq:
+            par_ = getattr(cur, '_parent', None)
+            if isinstance(par_, ast.If) and any(cur is x for x in par_.body) and isinstance(par_.test, ast.Compare) and isinstance(par_.test.ops[0], ast.Is) \
+                    and unparse(par_.test.comparators[0]) == 'None' and isinstance(par_.test.left, ast.Name) and par_.test.left.id in [a.arg for a in fnq.args.args]:
+                g_ = par_.test.left.id
+                break
+            cur = par_
+        if g_ is None:
+            unguarded.append(r_)
+        else:
+            guards.add(g_)
+    if par:
+        chk.check(not unguarded, 'C13-R7', PS, 'normalize_field', 'array reductions in the parallel kernel are only fallbacks for an omitted argument', f'{len(reds)} reduction(s), guarded by {sorted(guards)}',
+                  f'{[unparse(u_) for u_ in unguarded[:2]]} is evaluated on every call: numba splits the reduction over the threads, a float32 total depends on the thread count', node=unguarded[0] if unguarded else fnq)
+        ncalls = 0
+        for f_ in src.tree(PS).body:
+            if not isinstance(f_, ast.FunctionDef) or f_.name == 'normalize_field':
+                continue
+            ldefs = {}
+            for n in walk_no_nested(f_):
+                if isinstance(n, ast.Assign) and len(n.targets) == 1 and isinstance(n.targets[0], ast.Name):
+                    ldefs.setdefault(n.targets[0].id, []).append(n.value)
+
+            def nullable(e, d=0):
+                if d > 6:
+                    return True
+                if isinstance(e, ast.Constant):
+                    return e.value is None
+                if isinstance(e, ast.IfExp):
+                    return nullable(e.body, d + 1) or nullable(e.orelse, d + 1)
+                if isinstance(e, ast.Name):
+                    if e.id in [a.arg for a in f_.args.args + f_.args.kwonlyargs]:
+                        return True
+                    vs = ldefs.get(e.id)
+                    return (not vs) or any(nullable(v, d + 1) for v in vs)
+                if isinstance(e, ast.BoolOp):
+                    return any(nullable(v, d + 1) for v in e.values)
+                return False
+            for c_ in walk_no_nested(f_):
+                if isinstance(c_, ast.Call) and dotted(c_.func) == 'normalize_field':
+                    ncalls += 1
+                    for g_ in sorted(guards):
+                        idx = [a.arg for a in fnq.args.args].index(g_)
+                        v_ = next((k.value for k in c_.keywords if k.arg == g_), c_.args[idx] if idx < len(c_.args) else None)
+                        okn = v_ is not None and not nullable(v_)
+                        chk.check(okn, 'C13-R7', PS, f_.name, f'normalize_field receives its total ({g_}) from the caller, never None', unparse(v_) if v_ is not None else 'omitted',
+                                  f'{g_} = {unparse(v_) if v_ is not None else "omitted"} can be None: normalize_field then takes field.sum() inside its parallel=True kernel, a float32 reduction '
+                                  'split over the threads -- the normalisation, and with it every |delta_k|^2, depends on nthread (and saturates for large meshes)', node=c_)
+        if guards and not ncalls:
+            raise AnalysisError('normalize_field: no caller found')
     # ---- R5: estimator-level identities over complex algebra (a = ar + i ai, b = br + i bi as exact polynomials)
     _raw_power(chk, src)
     _siblings(chk, src)
